@@ -475,7 +475,8 @@ def units(_):
   g = getattr(R, "parse_vtt_pct", None)
   if g is not None:
     for k in range(0, 101):
-      for txt, want in ((f"{k}%", k), (f"{k}.0%", k), (f"{k}.25%", k + 0.25)):
+      # a WebVTT percentage is one or more digits with an optional fraction: leading and trailing zeros are part of the grammar
+      for txt, want in ((f"{k}%", k), (f"{k}.0%", k), (f"{k}.25%", k + 0.25), (f"0{k}%", k), (f"000{k}%", k), (f"0{k}.2500%", k + 0.25), (f"{k}.000%", k)):
         if want > 100:
           continue
         rec.evaluated("parse_vtt_pct", txt, {"text": txt})
@@ -857,11 +858,11 @@ SPECIALS = ["named-charref", "annotation-charref", "timestamp-multiple", "timest
 
 SETTING_VALUES = {
   "vertical": ["rl", "lr"],
-  "line": ["0", "1", "5", "-1", "-3", "22", "23", "10%", "0%", "100%", "50%", "12.5%", "33.333%", "90%"],
+  "line": ["0", "1", "5", "-1", "-3", "22", "23", "10%", "0%", "100%", "50%", "12.5%", "33.333%", "90%", "010%", "007.50%"],
   "line_align": [None, None, "start", "center", "end"],
-  "position": ["0%", "10%", "50%", "100%", "35%", "62.5%"],
+  "position": ["0%", "10%", "50%", "100%", "35%", "62.5%", "025%", "0100%"],
   "position_align": [None, None, "line-left", "center", "line-right"],
-  "size": ["0%", "20%", "50%", "100%", "33.3%", "80%"],
+  "size": ["0%", "20%", "50%", "100%", "33.3%", "80%", "050%", "0100.0%"],
   "align": ["start", "center", "end", "left", "right"],
 }
 
